@@ -601,7 +601,7 @@ func runCrashProp(r *Run, prop, stratum string) *Violation {
 	if r.Tier == "thorough" {
 		max = 150
 	}
-	if prop == "C02" && g.Choose("startpath", 2) == 0 {
+	if g.Choose("startpath", 2) == 0 {
 		cfg.StartPath = true
 		cfg.AfterFullSync = g.Choose("afterfullsync", 2) == 0
 	}
